@@ -5,6 +5,7 @@ import Driver.ImmunityDrv
 import Driver.LRUDrv
 import Driver.PersistDrv
 import Driver.MiscDrv
+import Driver.ConcDrv
 open SV
 
 def tokens (line : String) : List String :=
@@ -61,5 +62,6 @@ def main (args : List String) : IO UInt32 := do
   | ["unit"] => loopState stdin stdout Drv.Misc.uStep SV.Unit.U.init; return 0
   | ["fifo"] => loopState stdin stdout Drv.Misc.fStep (SV.Fifo.Cache.init 2 1); return 0
   | ["timecache"] => loopState stdin stdout Drv.Misc.tStep {}; return 0
+  | ["concp"] => loopState stdin stdout Drv.Conc.step {}; return 0
   | ["shard"] => loopStateless stdin stdout shardStep; return 0
   | _ => IO.eprintln "usage: svdriver <component>"; return 2
